@@ -264,7 +264,7 @@ func (s *State) clone() *State {
 }
 
 // heapSort: region -> index -> slot sort
-func (e *Engine) heapSort(slot Sort) Sort { return SArr(SInt, SArr(e.ar.idxSort(), slot)) }
+func (e *Engine) heapSort(slot Sort) Sort { return SArr(e.rs(), SArr(e.ar.idxSort(), slot)) }
 
 // heapGet returns the current memory map for key, creating the entry map lazily.
 func (e *Engine) heapGet(st *State, key string, slot Sort) Term {
@@ -338,10 +338,10 @@ func (e *Engine) sliceWF(s SliceV, alloc Term) Term {
 	max := a.idxLit(1 << 40)
 	z := a.idxLit(0)
 	return And(
-		app(SBool, "<=", IntLit(0), s.Rid), app(SBool, "<", s.Rid, alloc),
+		e.ridLe(e.ridLit(0), s.Rid), e.ridLt(s.Rid, alloc),
 		a.idxLe(z, s.Off), a.idxLe(s.Off, max),
 		a.idxLe(z, s.Len), a.idxLe(s.Len, s.Cap), a.idxLe(s.Cap, max),
-		Implies(Eq(s.Rid, IntLit(0)), And(Eq(s.Cap, z), Eq(s.Off, z))),
+		Implies(Eq(s.Rid, e.ridLit(0)), And(Eq(s.Cap, z), Eq(s.Off, z))),
 	)
 }
 
@@ -356,7 +356,7 @@ func (e *Engine) wfVal(v Val, alloc Term) Term {
 		if x.Local != nil {
 			return TTrue
 		}
-		return And(app(SBool, "<=", IntLit(0), x.Rid), app(SBool, "<", x.Rid, alloc), Implies(Eq(x.Rid, IntLit(0)), Eq(x.Idx, e.ar.idxLit(0))),
+		return And(e.ridLe(e.ridLit(0), x.Rid), e.ridLt(x.Rid, alloc), Implies(Eq(x.Rid, e.ridLit(0)), Eq(x.Idx, e.ar.idxLit(0))),
 			e.ar.idxLe(e.ar.idxLit(0), x.Idx), e.ar.idxLe(x.Idx, e.ar.idxLit(1<<40)))
 	case StructV:
 		var ts []Term
@@ -389,13 +389,13 @@ func (e *Engine) strConst(s string) Term {
 	if t, ok := e.strConsts[s]; ok {
 		return t
 	}
-	t := e.declare(fmt.Sprintf("str!%d", len(e.strConsts)), SInt)
+	t := e.declare(fmt.Sprintf("str!%d", len(e.strConsts)), e.rs())
 	e.strConsts[s] = t
 	e.strOrder = append(e.strOrder, s)
-	sl := e.declareFun("strlen", []Sort{SInt}, e.ar.idxSort())
+	sl := e.declareFun("strlen", []Sort{e.rs()}, e.ar.idxSort())
 	e.assumps = append(e.assumps, Assump{T: Eq(Term{fmt.Sprintf("(%s %s)", sl, t.S), e.ar.idxSort()}, e.ar.idxLit(int64(len(s))))})
 	if len(s) <= 16 {
-		sa := e.declareFun("strat", []Sort{SInt, e.ar.idxSort()}, e.byteSort())
+		sa := e.declareFun("strat", []Sort{e.rs(), e.ar.idxSort()}, e.byteSort())
 		for i := 0; i < len(s); i++ {
 			e.assumps = append(e.assumps, Assump{T: Eq(Term{fmt.Sprintf("(%s %s %s)", sa, t.S, e.ar.idxLit(int64(i)).S), e.byteSort()}, e.ar.intLit(bigInt(int64(s[i])), types.Typ[types.Uint8]))})
 		}
@@ -410,7 +410,7 @@ func (e *Engine) strConst(s string) Term {
 func (e *Engine) byteSort() Sort { return e.ar.intSort(types.Typ[types.Uint8]) }
 
 func (e *Engine) strlen(h Term) Term {
-	sl := e.declareFun("strlen", []Sort{SInt}, e.ar.idxSort())
+	sl := e.declareFun("strlen", []Sort{e.rs()}, e.ar.idxSort())
 	t := Term{fmt.Sprintf("(%s %s)", sl, h.S), e.ar.idxSort()}
 	return t
 }
@@ -441,3 +441,42 @@ func (e *Engine) idxPrelude() string {
 	return fmt.Sprintf("(declare-fun idx (%s %s) %s)\n(assert (forall ((a %s) (b %s)) (! (= (idx a b) (%s a b)) :pattern ((idx a b)))))\n", s, s, s, s, s, plus) +
 		fmt.Sprintf("(declare-fun mark (%s) Bool)\n(assert (forall ((a %s)) (! (mark a) :pattern ((mark a)))))\n", s, s)
 }
+
+// Region identifiers, map/interface/string handles and the allocation counter share one sort: Int in int mode,
+// 64-bit vectors in bv mode (so that bv-mode queries stay in pure bit-vector + array logic).
+func (e *Engine) rs() Sort {
+	if e.ar.mode == ModeBV {
+		return SBV(64)
+	}
+	return SInt
+}
+
+func (e *Engine) ridLit(n int64) Term {
+	if e.ar.mode == ModeBV {
+		return BVLit(bigInt(n), 64)
+	}
+	return IntLit(n)
+}
+
+func (e *Engine) ridNext(a Term) Term {
+	if e.ar.mode == ModeBV {
+		return app(SBV(64), "bvadd", a, BVLit(bigInt(1), 64))
+	}
+	return app(SInt, "+", a, IntLit(1))
+}
+
+func (e *Engine) ridLt(a, b Term) Term {
+	if e.ar.mode == ModeBV {
+		return app(SBool, "bvult", a, b)
+	}
+	return app(SBool, "<", a, b)
+}
+
+func (e *Engine) ridLe(a, b Term) Term {
+	if e.ar.mode == ModeBV {
+		return app(SBool, "bvule", a, b)
+	}
+	return app(SBool, "<=", a, b)
+}
+
+func isNilRid(t Term) bool { return t.S == "0" || t.S == "(_ bv0 64)" }
